@@ -18,6 +18,9 @@
 namespace fki {
 
 struct TraceFail { std::string msg; };
+}
+inline symt::SymD::operator symt::SymR() const { throw fki::TraceFail{"a double was narrowed to float (rounding not expressible in the trace format)"}; }
+namespace fki {
 
 struct SymPolicy {
   struct W { uint32_t raw; };
